@@ -23,6 +23,7 @@ type report struct {
 	nq      int
 	t0      time.Time
 	bounded []boundedResult
+	explored []exploreResult
 	lockTrusted []string
 	nLockTypes  int
 }
@@ -153,6 +154,17 @@ func (r *report) finish() int {
 		}
 	}
 	r.bounded = bounded
+	if !o.noEvidence && o.property != "" && o.tier == "thorough" {
+		r.explored = runExploration(o, id, r.obls)
+		for _, e := range r.explored {
+			if !e.Passed {
+				violations++
+				path := filepath.Join(replayDir, "witness_"+sanitizeFile(e.Kit)+".json")
+				writeJSON(path, map[string]any{"property": id, "obligation": "witness:" + e.Kit, "kind": "exploration", "replay_cmd": e.Cmd, "replay_output": truncate(e.Out, 6000), "reproduced_on_real_code": true})
+				lines = append(lines, fmt.Sprintf("VIOLATION property=%s replay=%s obligation=witness:%s", id, path, e.Kit))
+			}
+		}
+	}
 	// a definite violation outranks an engine error elsewhere
 	if violations > 0 {
 		exit = 1
@@ -354,6 +366,9 @@ func (r *report) writeEvidence(id string, discharged int, failed []*OblResult, k
 	if len(r.bounded) > 0 {
 		cov["bounded"] = r.bounded
 		cov["bounded_note"] = "bounded stand-ins cover code outside govc's reach (assembly, unsafe); they are not obligations and are not counted in `discharged`"
+	}
+	if len(r.explored) > 0 {
+		cov["exploration_beyond_proof"] = r.explored
 	}
 	ev := Evidence{PropertyID: id, Tier: r.o.tier, Seed: r.seed, Level: "proof", Coverage: cov, Assumptions: assumptions, WallS: round3(wall), Violations: violations}
 	if err := writeJSON(filepath.Join(r.o.verif, "evidence", id+".json"), ev); err != nil {
